@@ -21,7 +21,9 @@ def run(ck):
     ties = [l for l in laws if sum(1 for x in l["num"] if x > 0) >= 3]
     others = [l for l in laws if l not in ties]
     k = 20 if q else 200
-    laws = others[:k] + ties[:k]
+    # the order-revealing populations (one individual per arrangement of 0..m-1): always included
+    perm = [l for l in laws if len(l["case"]["pop"]) >= 6]
+    laws = perm + [l for l in others if l not in perm][:k] + ties[:k]
     N = 60000 if q else 1000000
     rows = selcheck.law_rows(ck, "sel-law", laws, N, "lexicase")
     cells = selcheck.check_rows(ck, rows, "lexicase-winner",
